@@ -81,7 +81,7 @@ def mutate(rng, text):
 
 
 def noise(rng):
-    alpha = 'abcxyHSBK019 \t"\\#{}[]()+-*/%^<>=!:.,_;\n\'`~@$&|?'
+    alpha = 'abcxyHSBK019 \t"\\#{}[]()+-*/%^<>=!:.,_;\n\'`~@$&|?\x0b\x0c\x1c\x1f\r'
     return ''.join(rng.choice(alpha) for _ in range(rng.randint(0, 40)))
 
 
